@@ -671,6 +671,38 @@ def run_soe_point(acc, m, sigs, A, f_idx, p_idx, bf, xp, symlabel, point, counte
                     acc.violation('repeat_differs', dict(base, output=nm), point, err=err, bound=bound)
                     acc.outcomes.add('repeat_differs')
                     return
+    # a further load case on the same module: its own equations hold, and the pair (x, b) returned for the previous load
+    # case (kept by the caller) is still the solution of the previous load case
+    held = [(s_.state, np.array(s_.state, copy=True)) for s_ in m.sig_out]
+    bf2, xp2 = 1.7 * bf + 0.3, -0.6 * xp + 0.2
+    sigs[1].state, sigs[2].state = bf2.copy(), xp2.copy()
+    try:
+        acc.trans += 1
+        m.response()
+    except Exception as e:  # noqa
+        acc.checks += 1
+        acc.violation('raised', dict(base, step='new_values', exc=type(e).__name__, where=where_raised(e)), point,
+                      error=str(e)[:300], matrix=A, free=f_idx, prescribed=p_idx)
+        return
+    x2, b2 = [np.asarray(s_.state) for s_ in m.sig_out]
+    okv = x2.shape == x.shape and b2.shape == b.shape
+    if okv:
+        e1, _ = alg_err(x2[p_idx, ...], xp2)
+        e2, _ = alg_err(b2[f_idx, ...], bf2)
+        okv = check_alg(acc, e1, maxabs(xp2))[0] and check_alg(acc, e2, maxabs(bf2))[0]
+        for idx in (f_idx, p_idx):
+            err, scale = lm.rows_err(A, x2, b2, idx)
+            okv = okv and check_alg(acc, err, scale)[0]
+    if not okv:
+        acc.violation('soe_full_system', dict(base, matrix=symlabel, rows='new_values'), point, matrix_values=A,
+                      free=f_idx, prescribed=p_idx, b_f=bf2, x_p=xp2, x=x2, b=b2, step='new_values')
+        return
+    acc.checks += 1
+    for nm, (obj, snap_) in zip(('x', 'b'), held):
+        if not exact_equal(np.asarray(obj), snap_):
+            acc.violation('earlier_result_changed', dict(base, output=nm), point, held_now=np.asarray(obj),
+                          as_returned=snap_, history='response(load case 1), response(load case 2)')
+            return
     acc.outcomes.add(f"ok/{symlabel}/{used_solver(getattr(m, 'module_LinSolve', None))}/"
                      f"{'c' if np.iscomplexobj(x) else 'r'}")
 
